@@ -19,6 +19,14 @@ pub fn emit(ctx: &mut Ctx, id: usize, sc: &StreamCase, r: &EpRes, pre: &[u8], ma
 
 /// Run a stream through all entry points. `n_sched` extra random schedules per low-level mode.
 pub fn run_stream(ctx: &mut Ctx, sc: &StreamCase, n_sched: usize, all_cuts: bool) {
+    // correspondence with the Lean decoder model: every low-level call of this stream's runs
+    klog_enable(sc.z.len() <= 4000 && sc.expect_len <= 12_000);
+    run_stream_inner(ctx, sc, n_sched, all_cuts);
+    for l in klog_take() { ctx.line(&l); }
+    klog_enable(false);
+}
+
+fn run_stream_inner(ctx: &mut Ctx, sc: &StreamCase, n_sched: usize, all_cuts: bool) {
     let id = ctx.id();
     let z = &sc.z;
     let data_hex = hex(z);
